@@ -5,10 +5,13 @@ import numpy as np
 
 from . import simdata as SD
 
+import itertools
+
 BASES = ["A", "C", "G", "T", "AC", "GTT"]
+MANY = [x for n in (1, 2, 3, 4) for x in map("".join, itertools.product("ACGT", repeat=n))]  # 340 distinct allele strings
 
 
-def gen_content(rng, maxs=4, maxv=6, allow_half_missing=True, multibase_ref=False, min_v=0):
+def gen_content(rng, maxs=4, maxv=6, allow_half_missing=True, multibase_ref=False, min_v=0, many_alleles=0.0):
     ns = rng.randint(1, maxs)
     nv = rng.randint(min_v, maxv)
     contigs = rng.sample(["1", "2", "chrX"], rng.randint(1, 3))
@@ -25,6 +28,10 @@ def gen_content(rng, maxs=4, maxv=6, allow_half_missing=True, multibase_ref=Fals
         nal = rng.choice([2, 2, 3, 4])
         ref = rng.choice(["A", "C", "G", "T"]) if not (multibase_ref and rng.random() < 0.4) else rng.choice(["ACGT", "GTT", "AC"])
         alts = [b for b in BASES if b != ref][: nal - 1]
+        if rng.random() < many_alleles:
+            # a highly multi-allelic locus (tandem repeat / HLA-like): allele indices beyond 127 and up to 253
+            nal = rng.choice([129, 130, 200, 254])
+            alts = [b for b in MANY if b != ref][: nal - 1]
         variants.append({"id": f"v{j}", "chrom": c, "pos": pos, "alleles": [ref] + alts})
     variants.sort(key=lambda v: (v["chrom"], v["pos"]))
     for j, v in enumerate(variants):
@@ -57,7 +64,10 @@ def make_obj(cls_name, fname, content, chunk_size=None):
     else:
         g = getattr(D, cls_name)(fname, log=log)
     g.samples = tuple(content["samples"])
-    g.variants = np.array([(v["id"], v["chrom"], v["pos"], tuple(v["alleles"])) for v in content["variants"]], dtype=g.variants.dtype)
+    if "alleles" in g.variants.dtype.names:
+        g.variants = np.array([(v["id"], v["chrom"], v["pos"], tuple(v["alleles"])) for v in content["variants"]], dtype=g.variants.dtype)
+    else:
+        g.variants = np.array([(v["id"], v["chrom"], v["pos"]) for v in content["variants"]], dtype=g.variants.dtype)
     g.data = np.array(content["data"], dtype=np.uint8).reshape((len(content["samples"]), len(content["variants"]), 3))
     return g
 
